@@ -23,7 +23,7 @@ Definition mtarget_eqb (a b : mtarget) : bool :=
 Definition mkey_eqb (a b : mkey) : bool :=
   match a, b with
   | KExtentBytes, KExtentBytes | KBufferBytes, KBufferBytes | KCap, KCap | KUnionCount, KUnionCount | KPortId, KPortId
-  | KFullName, KFullName | KConst, KConst => true
+  | KFullName, KFullName | KConst, KConst | KSvcPortId, KSvcPortId => true
   | _, _ => false
   end.
 
@@ -41,7 +41,7 @@ Definition key_spec (k : mkey) (t : ty) : Z :=
   | KBufferBytes => Z.of_nat (bmax t) / 8
   | KCap => array_capacity t
   | KUnionCount => option_count t
-  | KPortId | KFullName | KConst => -1
+  | KPortId | KFullName | KConst | KSvcPortId => -1
   end.
 
 (* syntactic acceptability of a rendering expression for a key *)
@@ -67,13 +67,14 @@ Definition good_exp (k : mkey) (e : mexp) : bool :=
   | KPortId => match e with MSrc SrcPortId => true | _ => false end
   | KFullName => match e with MSrc SrcFullName => true | _ => false end
   | KConst => false
+  | KSvcPortId => match e with MSrc SrcPortId => true | _ => false end
   end.
 
 (* every (target, key) pair the generated code is expected to export *)
 Definition required_exports : list (mtarget * mkey) :=
   [(TgtC, KExtentBytes); (TgtC, KBufferBytes); (TgtC, KCap); (TgtC, KUnionCount); (TgtC, KPortId); (TgtC, KFullName);
    (TgtCpp, KExtentBytes); (TgtCpp, KBufferBytes); (TgtCpp, KUnionCount); (TgtCpp, KPortId);
-   (TgtPy, KExtentBytes); (TgtPy, KPortId)].
+   (TgtPy, KExtentBytes); (TgtPy, KPortId); (TgtPy, KSvcPortId)].
 
 Definition table_ok : bool :=
   forallb (fun x => good_exp (ex_key x) (ex_exp x)) exported_table
@@ -95,6 +96,7 @@ Definition emits_of (tg : mtarget) (k : mkey) : list (list mcond) :=
 Definition good_emit (k : mkey) (cs : list mcond) : bool :=
   match k, cs with
   | KPortId, [CondHas SrcPortId] | KPortId, [CondNotNone SrcPortId] => true
+  | KSvcPortId, [CondHas SrcPortId] | KSvcPortId, [CondNotNone SrcPortId] => true
   | KConst, [CondEach] => true
   | KCap, [CondEachArray] => true
   | KExtentBytes, [CondNotService] | KBufferBytes, [CondNotService] => true
@@ -102,7 +104,7 @@ Definition good_emit (k : mkey) (cs : list mcond) : bool :=
   end.
 
 Definition required_emits : list (mtarget * mkey) :=
-  [(TgtC, KPortId); (TgtCpp, KPortId); (TgtPy, KPortId); (TgtC, KConst); (TgtCpp, KConst); (TgtPy, KConst); (TgtC, KCap);
+  [(TgtC, KPortId); (TgtCpp, KPortId); (TgtPy, KPortId); (TgtPy, KSvcPortId); (TgtC, KConst); (TgtCpp, KConst); (TgtPy, KConst); (TgtC, KCap);
    (TgtC, KExtentBytes); (TgtC, KBufferBytes)].
 
 Definition emit_ok : bool :=
@@ -125,17 +127,19 @@ Fixpoint port_conds_hold (cs : list mcond) (p : option Z) : option bool :=
 
 (* the fixed port id target tg exports for a type whose DSDL fixed port id is p: Some None = the "no fixed port id" branch,
    None = the scan is not understood *)
-Definition exported_port (tg : mtarget) (p : option Z) : option (option Z) :=
-  match emits_of tg KPortId, exports_of tg KPortId with
+Definition exported_port_k (tg : mtarget) (k : mkey) (p : option Z) : option (option Z) :=
+  match emits_of tg k, exports_of tg k with
   | [cs], MSrc SrcPortId :: _ => match port_conds_hold cs p with Some true => Some p | Some false => Some None | None => None end
   | _, _ => None
   end.
+Definition exported_port (tg : mtarget) (p : option Z) : option (option Z) := exported_port_k tg KPortId p.
 
 (* ---- every exported name has a row: what the DSDL definition says about it (tools/checks/c05.py compares each row, read from
    compiled code by tools/harness/c05_probe.py or the codec runners, with pydsdl) ---- *)
 Inductive mrow : Type :=
 | RHasFixedPortId | RFixedPortId | RFullName | RFullNameAndVersion | RExtentBytes | RBufferBytes | RConstant | RArrayCapacity
 | RArrayIsVariable | RUnionCount | RIsServiceType | RIsService | RIsRequest | RIsResponse
+| RServiceAlias               (* the Request / Response aliases of the C++ service wrapper *)
 | RInternalOverrideSwitch.    (* _DISABLE_SERIALIZATION_BUFFER_CHECK_: only with enable_override_variable_array_capacity, not metadata *)
 
 Definition c_rows : list (str * mrow) :=
@@ -163,7 +167,13 @@ Definition cpp_rows : list (str * mrow) :=
     ([69; 120; 116; 101; 110; 116; 66; 121; 116; 101; 115]%N, RExtentBytes);
     ([83; 101; 114; 105; 97; 108; 105; 122; 97; 116; 105; 111; 110; 66; 117; 102; 102; 101; 114; 83; 105; 122; 101; 66; 121; 116; 101; 115]%N, RBufferBytes);
     ([60; 99; 111; 110; 115; 116; 62]%N, RConstant);
-    ([77; 65; 88; 95; 73; 78; 68; 69; 88]%N, RUnionCount)
+    ([77; 65; 88; 95; 73; 78; 68; 69; 88]%N, RUnionCount);
+    ([83; 118; 99; 46; 73; 115; 83; 101; 114; 118; 105; 99; 101; 84; 121; 112; 101]%N, RIsServiceType);
+    ([83; 118; 99; 46; 73; 115; 83; 101; 114; 118; 105; 99; 101]%N, RIsService);
+    ([83; 118; 99; 46; 73; 115; 82; 101; 113; 117; 101; 115; 116]%N, RIsRequest);
+    ([83; 118; 99; 46; 73; 115; 82; 101; 115; 112; 111; 110; 115; 101]%N, RIsResponse);
+    ([83; 118; 99; 46; 82; 101; 113; 117; 101; 115; 116]%N, RServiceAlias);
+    ([83; 118; 99; 46; 82; 101; 115; 112; 111; 110; 115; 101]%N, RServiceAlias)
   ].
 
 Fixpoint row_lookup (rows : list (str * mrow)) (nm : str) : option mrow :=
@@ -178,6 +188,47 @@ Definition name_row (tg : mtarget) (nm : str) : option mrow :=
 (* no exported name without a row *)
 Definition names_ok : bool :=
   forallb (fun '(tg, nm) => match name_row tg nm with Some _ => true | None => false end) exported_names.
+
+(* ---- the C header of one type as the ORDERED list of its #defines.  All C exports are macros `<T><suffix>` in ONE flat namespace and
+   constants are emitted as `<T>_<constant name>` into the same namespace after the metadata: the value a user reads is the LAST
+   definition of a name (compilers only warn about the redefinition).  Finding F-C-MACRO-CLASH. ---- *)
+Inductive msource : Type :=
+| SrcRow (r : mrow)                       (* metadata macro of the type *)
+| SrcConstant (name : str)                (* DSDL constant *)
+| SrcField (r : mrow) (field : str).      (* per array field macro *)
+
+Definition tok_const : str := [95; 60; 99; 111; 110; 115; 116; 62]%N.         (* "_<const>" *)
+Definition tok_field : str := [95; 60; 102; 105; 101; 108; 100; 62]%N.         (* "_<field>" *)
+
+Definition expand_c_name (consts fields : list str) (nm : str) : list (str * msource) :=
+  match name_row TgtC nm with
+  | None => []
+  | Some r =>
+      if lstr_eqb nm tok_const then map (fun c => (95%N :: c, SrcConstant c)) consts
+      else match strip tok_field nm with
+           | Some rest => map (fun f => (95%N :: f ++ rest, SrcField r f)) fields
+           | None => [(nm, SrcRow r)]
+           end
+  end.
+
+(* in template order (base.j2, then definitions.j2 top to bottom) *)
+Definition c_header (consts fields : list str) : list (str * msource) :=
+  flat_map (fun '(tg, nm) => match tg with TgtC => expand_c_name consts fields nm | _ => [] end) exported_names.
+
+Fixpoint last_def (l : list (str * msource)) (nm : str) : option msource :=
+  match l with
+  | [] => None
+  | (k, v) :: r => match last_def r nm with Some x => Some x | None => if lstr_eqb k nm then Some v else None end
+  end.
+
+Fixpoint keys_distinct (l : list (str * msource)) : bool :=
+  match l with
+  | [] => true
+  | (k, _) :: r => negb (existsb (fun '(k', _) => lstr_eqb k k') r) && keys_distinct r
+  end.
+
+(* the premise under which every exported C value is the one the model computes: no two macros of the type share a name *)
+Definition c_macros_distinct (consts fields : list str) : bool := keys_distinct (c_header consts fields).
 
 (* ---- boolean flags rendered as literals under Jinja branches ---- *)
 Fixpoint cond_holds (c : mcond) (p : option Z) (svc : bool) : option bool :=
@@ -210,6 +261,10 @@ Definition exported_flag (tg : mtarget) (nm : str) (p : option Z) (svc : bool) :
 Definition n_c_has_port : str := [95; 72; 65; 83; 95; 70; 73; 88; 69; 68; 95; 80; 79; 82; 84; 95; 73; 68; 95]%N.
 Definition n_cpp_has_port : str := [72; 97; 115; 70; 105; 120; 101; 100; 80; 111; 114; 116; 73; 68]%N.
 Definition n_cpp_is_service_type : str := [73; 115; 83; 101; 114; 118; 105; 99; 101; 84; 121; 112; 101]%N.
+Definition n_cpp_svc (nm : str) : str := [83; 118; 99; 46]%N ++ nm.
+Definition n_IsService : str := [73; 115; 83; 101; 114; 118; 105; 99; 101]%N.
+Definition n_IsRequest : str := [73; 115; 82; 101; 113; 117; 101; 115; 116]%N.
+Definition n_IsResponse : str := [73; 115; 82; 101; 115; 112; 111; 110; 115; 101]%N.
 
 (* ---- the up-front capacity check as rendered ---- *)
 Definition cmp_eval (op : mcmp) (a b : Z) : bool :=
